@@ -115,6 +115,18 @@ def gen_signal(rng, fs, f_lo, f_hi, n_sec, kind=None):
                  else 10.0 ** float(rng.integers(-3, 4)))
     elif r < 0.46:
         x = x * 2.0 ** float(rng.choice([-1, 1]) * rng.integers(28, 50))      # very small / large units (e.g. tesla)
+    if r >= 0.46 and rng.random() < 0.07:
+        # raw A/D counts of a narrow integer type; the swing is a sizeable part of the type's range (0.3 / 0.8 of it) or exceeds
+        # it (1.2: the recording saturates at the rails).  Differences and negations of such values do not fit the type.
+        x = np.asarray(x, dtype=float)
+        x = x - (np.max(x) + np.min(x)) / 2.0
+        x = x / (np.max(np.abs(x)) + 1e-300)
+        dt = [np.int16, np.uint16, np.int8, np.uint8, np.int32][int(rng.integers(0, 5))]
+        info = np.iinfo(dt)
+        half = (float(info.max) - float(info.min)) / 2.0
+        mid = np.ceil((float(info.max) + float(info.min)) / 2.0)
+        y = np.clip(np.round(mid + x * half * float(rng.choice([0.3, 0.8, 1.2]))), info.min, info.max).astype(dt)
+        return np.ascontiguousarray(y), kind + '+' + np.dtype(dt).name
     if kind == 'plateau' and r >= 0.46 and rng.random() < 0.5:
         # integer-typed samples (raw A/D counts): same values, dtype int64
         return np.ascontiguousarray(np.round(x).astype(np.int64)), kind + '+int'
@@ -213,6 +225,12 @@ def gen_pipeline_case(rng, families=None, methods=('cycles', 'amp'), nsec=(1.0, 
             thr = None
     else:
         thr, bk, route = gen_amp_options(rng, lo)
+        if bk is not None and rng.random() < 0.12:
+            # options written for compute_burst_features (which needs these keys) on another recording / band, re-used here:
+            # the sampling rate and band of THIS call are its own arguments
+            bk['fs'] = fs * 2
+            bk['f_range'] = (lo + 1.0, hi + 1.0)
+            kind = kind + '+stale_fs_keys'
     view = [None, None, None, None, None, None, 'strided', 'readonly'][int(rng.integers(0, 8))]
     return dict(sig=sig, sig_view=view, fs=fs, f_range=(lo, hi), center_extrema=center, burst_method=method,
                 burst_kwargs=bk, threshold_kwargs=thr, find_extrema_kwargs=fek,
